@@ -34,16 +34,20 @@ Qed.
 Lemma tdel_length t k : (List.length (tdel t k) <= List.length t)%nat.
 Proof. unfold tdel. induction t as [|e r IH]; cbn [filter List.length]; [lia|]. destruct (negb _); cbn [List.length]; lia. Qed.
 
-Lemma tget_tdel_range t a n j : tget (tdel_range t a n) j = if in_range j a n then None else tget t j.
+Lemma tget_tdel_own t k p j : tget (tdel_own t k p) j =
+  if (j =? k) && (match tget t k with Some q => Nat.eqb q p | None => false end) then None else tget t j.
 Proof.
-  unfold tdel_range. induction t as [|[k' v] r IH]; cbn [filter tget fst].
-  - destruct (in_range j a n); reflexivity.
-  - destruct (in_range k' a n) eqn:E; cbn [negb].
-    + rewrite IH. destruct (in_range j a n) eqn:E2; [reflexivity|].
-      cbn [tget]. destruct (N.eqb_spec k' j); [congruence|reflexivity].
-    + cbn [tget]. rewrite IH. destruct (N.eqb_spec k' j) as [E3|E3].
-      * subst. rewrite E. reflexivity.
-      * reflexivity.
+  unfold tdel_own. destruct (tget t k) as [q|] eqn:E.
+  - destruct (Nat.eqb q p).
+    + rewrite tget_tdel. destruct (j =? k); reflexivity.
+    + rewrite andb_false_r. reflexivity.
+  - rewrite andb_false_r. reflexivity.
+Qed.
+
+Lemma tdel_absent t k : tget t k = None -> tdel t k = t.
+Proof.
+  unfold tdel. induction t as [|[k' v] r IH]; cbn [tget filter fst]; [reflexivity|].
+  destruct (N.eqb_spec k' k); [discriminate|]. cbn [negb]. intros H. rewrite IH by exact H. reflexivity.
 Qed.
 
 Lemma pget_pset l p v q : pget (pset l p v) q = if Nat.eqb q p then Some v else pget l q.
@@ -120,14 +124,18 @@ Proof.
 Qed.
 
 (* ------------------------------------------------------------------ *)
-(* shape of one step: 9 cases
-   Begin | Sent true | Sent false | BulkFail | Notify (entry) | Notify (none) | Skip | Timeout | End *)
+(* shape of one step: 10 cases
+   Begin (table full) | Begin | Sent true | Sent false | BulkFail | Notify (entry) | Notify (none) | Skip | Timeout | End *)
 
 Ltac step_cases H :=
   match type of H with
   | step ?fx ?s ?e = Ok ?s1 =>
       destruct e as [p | p ok | nb | j | | p | p]; cbn [step] in H;
-      [ destruct (pget (pings s) p) eqn:Ep; [discriminate|]; cbv zeta in H; inversion H; subst s1; clear H
+      [ destruct (pget (pings s) p) eqn:Ep; [discriminate|];
+        destruct (table_full (tbl s)) eqn:Efull;
+        [ inversion H; subst s1; clear H
+        | destruct (alloc (tbl s) (next s)) as [ia|] eqn:Eal; [|discriminate];
+          cbv zeta in H; inversion H; subst s1; clear H ]
       | destruct (pget (pings s) p) as [pgp|] eqn:Ep; [|discriminate];
         destruct (p_phase pgp) eqn:Eph; try discriminate;
         destruct ok; inversion H; subst s1; clear H
@@ -161,69 +169,130 @@ Proof.
   intros H. constructor; cbn [init tbl pings next tget pget keys map]; try discriminate; auto. constructor.
 Qed.
 
-Lemma keys_tdel_range_nodup t a n : NoDup (keys t) -> NoDup (keys (tdel_range t a n)).
+Lemma keys_tdel_own_nodup t k p : NoDup (keys t) -> NoDup (keys (tdel_own t k p)).
 Proof.
-  unfold keys, tdel_range. induction t as [|[k' v] r IH]; cbn [filter map fst]; intros H; [constructor|].
-  inversion H; subst. destruct (in_range k' a n); cbn [negb map fst]; [auto|].
-  constructor; [|auto]. intros Hin. apply H2. clear -Hin.
-  induction r as [|[k v] r IH]; cbn [filter map fst In] in *; [tauto|].
-  destruct (in_range k a n); cbn [negb map fst In] in *; tauto.
+  intros H. unfold tdel_own. destruct (tget t k); [|exact H]. destruct (Nat.eqb _ p); [apply keys_tdel_nodup|]; exact H.
+Qed.
+
+(* the allocation loop *)
+Lemma first_free_spec t fuel : forall nx i, nx < 65536 -> first_free t nx fuel = Some i ->
+  tget t i = None /\ i < 65536.
+Proof.
+  induction fuel as [|f IH]; intros nx i Hn; cbn [first_free]; [discriminate|].
+  destruct (tget t nx) eqn:E.
+  - apply IH. apply N.mod_lt. discriminate.
+  - intros H; inversion H; subst. auto.
+Qed.
+
+Lemma first_free_none t fuel : forall nx, nx < 65536 -> first_free t nx fuel = None ->
+  forall d, (d < fuel)%nat -> tget t ((nx + N.of_nat d) mod 65536) <> None.
+Proof.
+  induction fuel as [|f IH]; intros nx Hn H d Hd; [lia|]. cbn [first_free] in H.
+  destruct (tget t nx) eqn:E; [|discriminate].
+  destruct d as [|d].
+  - cbn [N.of_nat]. rewrite N.add_0_r, N.mod_small by exact Hn. congruence.
+  - assert (Hm : (nx + 1) mod 65536 < 65536) by (apply N.mod_lt; discriminate).
+    pose proof (IH _ Hm H d ltac:(lia)) as G.
+    replace (((nx + 1) mod 65536 + N.of_nat d) mod 65536) with ((nx + N.of_nat (S d)) mod 65536) in G; [exact G|].
+    rewrite N.add_mod_idemp_l by discriminate. f_equal. lia.
+Qed.
+
+Lemma NoDup_map_inj_in {A B} (f : A -> B) l :
+  (forall x y, In x l -> In y l -> f x = f y -> x = y) -> NoDup l -> NoDup (map f l).
+Proof.
+  induction l as [|a r IH]; intros Hinj H; cbn [map]; [constructor|]. inversion H; subst. constructor.
+  - intros Hin. apply in_map_iff in Hin. destruct Hin as (y & Ey & Hy).
+    assert (y = a) by (apply Hinj; [right; exact Hy|left; reflexivity|exact Ey]). subst. contradiction.
+  - apply IH; [|assumption]. intros x y Hx Hy. apply Hinj; right; assumption.
+Qed.
+
+(* with fewer than 65536 entries the loop finds a free identifier within length+1 probes *)
+Lemma first_free_total t nx : nx < 65536 -> NoDup (keys t) -> table_full t = false ->
+  alloc t nx <> None.
+Proof.
+  intros Hn Hnd Hfull E. unfold alloc in E. unfold table_full in Hfull.
+  pose proof (first_free_none t _ nx Hn E) as Hbusy.
+  set (len := List.length t) in *.
+  set (l1 := map (fun d => (nx + N.of_nat d) mod 65536) (seq 0 (S len))).
+  assert (Hincl : incl l1 (keys t)).
+  { intros x Hx. unfold l1 in Hx. apply in_map_iff in Hx. destruct Hx as (d & <- & Hd).
+    apply in_seq in Hd. specialize (Hbusy d ltac:(lia)).
+    destruct (tget t ((nx + N.of_nat d) mod 65536)) eqn:Eg; [|congruence].
+    eapply tget_in_keys; eauto. }
+  assert (Hnd1 : NoDup l1).
+  { unfold l1. apply NoDup_map_inj_in; [|apply seq_NoDup].
+    intros x y Hx Hy Exy. apply in_seq in Hx. apply in_seq in Hy.
+    assert (N.of_nat x < 65536 /\ N.of_nat y < 65536) by lia.
+    assert (N.of_nat x = N.of_nat y); [|lia].
+    revert Exy. generalize (N.of_nat x) (N.of_nat y) H. intros a b [Ha Hb] Eab. lia. }
+  pose proof (NoDup_incl_length Hnd1 Hincl) as L.
+  unfold l1 in L. rewrite map_length, seq_length in L. unfold keys in L. rewrite map_length in L.
+  fold len in L. lia.
 Qed.
 
 (* a step changes the record of at most one call, and only its flags/phase *)
+Lemma bump_lt t nx : nx < 65536 -> bump t nx < 65536.
+Proof.
+  intros H. unfold bump. destruct (table_full t); [exact H|].
+  destruct (alloc t nx); [apply N.mod_lt; discriminate|exact H].
+Qed.
+
+Lemma iter_bump_lt n t nx : nx < 65536 -> N.iter n (bump t) nx < 65536.
+Proof. intros H. apply N.iter_invariant; [|exact H]. intros x Hx. apply bump_lt. exact Hx. Qed.
+
+Ltac same_flags Hf Hi Ep p :=
+  intros q0 pg0; rewrite pget_pset; destruct (Nat.eqb_spec q0 p);
+  [ intros E0; inversion E0; cbn; first [eapply Hf; eauto | eapply Hi; eauto | reflexivity]
+  | first [apply Hf | apply Hi] ].
+
 Lemma Inv_step fx s e s' : Inv s -> step fx s e = Ok s' -> Inv s'.
 Proof.
   intros [He Hf Hn Hx Hi] H.
   assert (Hfresh : forall p, pget (pings s) p = None -> forall i q, tget (tbl s) i = Some q -> q <> p).
   { intros p0 Ep0 i q Hq E. subst q. destruct (He _ _ Hq) as (pg & Hp & _). congruence. }
+  (* entries survive an update of p's record that keeps id, closed and recv *)
+  assert (Hkeep : forall p pgp pg', pget (pings s) p = Some pgp ->
+            p_id pg' = p_id pgp -> p_closed pg' = p_closed pgp -> p_recv pg' = p_recv pgp ->
+            forall i q, tget (tbl s) i = Some q ->
+            exists pg, pget (pset (pings s) p pg') q = Some pg /\ p_id pg = i /\ p_closed pg = false /\ p_recv pg = false).
+  { intros p0 pgp pg' Ep0 E1 E2 E3 i q Hq. destruct (He _ _ Hq) as (pg & Hp & Hid & Hc & Hr).
+    rewrite pget_pset. destruct (Nat.eqb_spec q p0).
+    - subst q. rewrite Ep0 in Hp. inversion Hp; subst pg. exists pg'. repeat split; congruence.
+    - exists pg. auto. }
   step_cases H.
+  - (* Begin, table full *)
+    unfold set_pings. constructor; cbn [tbl pings next]; auto.
+    + intros i q Hq. destruct (He _ _ Hq) as (pg & Hp & Hrest). exists pg. split; [|exact Hrest].
+      rewrite pget_pset. destruct (Nat.eqb_spec q p); [|exact Hp]. exfalso. eapply Hfresh; eauto.
+    + intros q pg. rewrite pget_pset. destruct (Nat.eqb_spec q p); [intros E; inversion E; reflexivity|apply Hf].
+    + intros q pg. rewrite pget_pset. destruct (Nat.eqb_spec q p); [intros E; inversion E; cbn; exact Hx|apply Hi].
   - (* Begin *)
+    destruct (first_free_spec _ _ _ _ Hx Eal) as [Hfree Hlt].
     constructor; cbn [tbl pings next].
-    + intros i q Hq. rewrite tget_tset in Hq. destruct (N.eqb_spec i (next s)) as [E|E].
+    + intros i q Hq. rewrite tget_tset in Hq. destruct (N.eqb_spec i ia) as [E|E].
       * inversion Hq; subst q i. rewrite pget_pset, Nat.eqb_refl. eexists; split; [reflexivity|]. cbn. auto.
       * destruct (He _ _ Hq) as (pg & Hp & Hrest). exists pg. split; [|exact Hrest].
         rewrite pget_pset. destruct (Nat.eqb_spec q p); [|exact Hp]. exfalso. eapply Hfresh; eauto.
-    + intros q pg. rewrite pget_pset. destruct (Nat.eqb_spec q p).
-      * intros E; inversion E; reflexivity.
-      * apply Hf.
+    + intros q pg. rewrite pget_pset. destruct (Nat.eqb_spec q p); [intros E; inversion E; reflexivity|apply Hf].
     + apply keys_tset_nodup; auto.
-    + unfold u16. lia.
-    + intros q pg. rewrite pget_pset. destruct (Nat.eqb_spec q p).
-      * intros E; inversion E; cbn. exact Hx.
-      * apply Hi.
+    + unfold u16. apply N.mod_lt. discriminate.
+    + intros q pg. rewrite pget_pset. destruct (Nat.eqb_spec q p); [intros E; inversion E; cbn; exact Hlt|apply Hi].
   - (* Sent true *)
     unfold set_pings. constructor; cbn [tbl pings next]; auto.
-    + intros i q Hq. destruct (He _ _ Hq) as (pg' & Hp' & Hid' & Hc' & Hr').
-      rewrite pget_pset. destruct (Nat.eqb_spec q p).
-      * subst q. rewrite Ep in Hp'. inversion Hp'; subst pg'. eexists; split; [reflexivity|]. cbn. auto.
-      * exists pg'. auto.
-    + intros q pg'. rewrite pget_pset. destruct (Nat.eqb_spec q p).
-      * intros E; inversion E; cbn. eapply Hf; eauto.
-      * apply Hf.
-    + intros q pg'. rewrite pget_pset. destruct (Nat.eqb_spec q p).
-      * intros E; inversion E; cbn. eapply Hi; eauto.
-      * apply Hi.
+    + eapply Hkeep; eauto.
+    + same_flags Hf Hi Ep p.
+    + same_flags Hf Hi Ep p.
   - (* Sent false *)
     constructor; cbn [tbl pings next]; auto.
     + intros i q Hq.
       assert (Hq' : tget (tbl s) i = Some q).
-      { destruct fx; [|exact Hq]. rewrite tget_tdel in Hq. destruct (i =? p_id pgp); [discriminate|exact Hq]. }
-      destruct (He _ _ Hq') as (pg' & Hp' & Hid' & Hc' & Hr').
-      rewrite pget_pset. destruct (Nat.eqb_spec q p).
-      * subst q. rewrite Ep in Hp'. inversion Hp'; subst pg'. eexists; split; [reflexivity|]. cbn. auto.
-      * exists pg'. auto.
-    + intros q pg'. rewrite pget_pset. destruct (Nat.eqb_spec q p).
-      * intros E; inversion E; cbn. eapply Hf; eauto.
-      * apply Hf.
-    + destruct fx; [apply keys_tdel_nodup|]; auto.
-    + intros q pg'. rewrite pget_pset. destruct (Nat.eqb_spec q p).
-      * intros E; inversion E; cbn. eapply Hi; eauto.
-      * apply Hi.
+      { destruct fx; [|exact Hq]. rewrite tget_tdel_own in Hq. destruct (_ && _); [discriminate|exact Hq]. }
+      eapply Hkeep; eauto.
+    + same_flags Hf Hi Ep p.
+    + destruct fx; [apply keys_tdel_own_nodup|]; auto.
+    + same_flags Hf Hi Ep p.
   - (* BulkFail *)
-    constructor; cbn [tbl pings next]; auto.
-    + intros i q Hq. rewrite tget_tdel_range in Hq. destruct (in_range i (next s) nb); [discriminate|]. auto.
-    + apply keys_tdel_range_nodup; auto.
-    + unfold u16. lia.
+    constructor; cbn [tbl pings next]; auto. apply iter_bump_lt. exact Hx.
   - (* Notify *)
     destruct (He _ _ Eq) as (pg & Hp & Hid & Hc & Hr). rewrite Hp in Epq. inversion Epq; subst pgq.
     constructor; cbn [tbl pings next].
@@ -242,28 +311,21 @@ Proof.
   - constructor; auto.
   - (* Timeout *)
     unfold set_pings. constructor; cbn [tbl pings next]; auto.
-    + intros i q Hq. destruct (He _ _ Hq) as (pg' & Hp' & Hid' & Hc' & Hr').
-      rewrite pget_pset. destruct (Nat.eqb_spec q p).
-      * subst q. rewrite Ep in Hp'. inversion Hp'; subst pg'. eexists; split; [reflexivity|]. cbn. auto.
-      * exists pg'. auto.
-    + intros q pg'. rewrite pget_pset. destruct (Nat.eqb_spec q p).
-      * intros E; inversion E; cbn. eapply Hf; eauto.
-      * apply Hf.
-    + intros q pg'. rewrite pget_pset. destruct (Nat.eqb_spec q p).
-      * intros E; inversion E; cbn. eapply Hi; eauto.
-      * apply Hi.
+    + eapply Hkeep; eauto.
+    + same_flags Hf Hi Ep p.
+    + same_flags Hf Hi Ep p.
   - (* End *)
     constructor; cbn [tbl pings next]; auto.
-    + intros i q Hq. rewrite tget_tdel in Hq. destruct (N.eqb_spec i (p_id pgp)) as [E|E]; [discriminate|].
-      destruct (He _ _ Hq) as (pg' & Hp' & Hid' & Hrest). exists pg'. split; [|auto].
-      rewrite pget_pset. destruct (Nat.eqb_spec q p); [|exact Hp']. subst q. congruence.
-    + intros q pg'. rewrite pget_pset. destruct (Nat.eqb_spec q p).
-      * intros E; inversion E; cbn. eapply Hf; eauto.
-      * apply Hf.
-    + apply keys_tdel_nodup; auto.
-    + intros q pg'. rewrite pget_pset. destruct (Nat.eqb_spec q p).
-      * intros E; inversion E; cbn. eapply Hi; eauto.
-      * apply Hi.
+    + intros i q Hq. rewrite tget_tdel_own in Hq.
+      assert (Hq' : tget (tbl s) i = Some q) by (destruct (_ && _); [discriminate|exact Hq]).
+      destruct (He _ _ Hq') as (pg' & Hp' & Hid' & Hrest). exists pg'. split; [|auto].
+      rewrite pget_pset. destruct (Nat.eqb_spec q p); [|exact Hp']. subst q.
+      (* q = p would mean the entry of p's own identifier, which was deleted *)
+      exfalso. rewrite Ep in Hp'. inversion Hp'; subst pg'. rewrite Hid' in Hq.
+      rewrite N.eqb_refl, Hq', Nat.eqb_refl in Hq. discriminate.
+    + same_flags Hf Hi Ep p.
+    + apply keys_tdel_own_nodup; auto.
+    + same_flags Hf Hi Ep p.
 Qed.
 
 Lemma Inv_run fx n tr s : n < 65536 -> run fx (init n) tr = Ok s -> Inv s.
@@ -275,7 +337,8 @@ Proof. intros Hn. apply run_ind; [apply Inv_init; exact Hn|]. intros; eapply Inv
 Lemma step_no_panic fx s e : Inv s -> step fx s e <> Panic.
 Proof.
   intros [He _ _ _ _]. destruct e as [p | p ok | nb | i | | p | p]; cbn [step]; try discriminate.
-  - destruct (pget (pings s) p); discriminate.
+  - destruct (pget (pings s) p); [discriminate|]. destruct (table_full (tbl s)); [discriminate|].
+    destruct (alloc (tbl s) (next s)); discriminate.
   - destruct (pget (pings s) p) as [pg|]; [|discriminate]. destruct (p_phase pg); try discriminate.
     destruct ok; discriminate.
   - destruct (fx && (nb <=? 65536)); discriminate.
@@ -293,6 +356,33 @@ Proof.
     destruct (step fx s e) eqn:E; try discriminate.
     - apply IH. eapply Inv_step; eauto.
     - exfalso. eapply step_no_panic; eauto. }
+  apply G. apply Inv_init. exact Hn.
+Qed.
+
+(* the allocation loop of icmpRegister terminates: no reachable state makes a step run out of fuel *)
+Lemma step_no_fuel fx s e : Inv s -> step fx s e <> Fuel.
+Proof.
+  intros [He _ Hnd Hx _]. destruct e as [p | p ok | nb | i | | p | p]; cbn [step]; try discriminate.
+  - destruct (pget (pings s) p); [discriminate|]. destruct (table_full (tbl s)) eqn:Ef; [discriminate|].
+    destruct (alloc (tbl s) (next s)) eqn:Ea; [discriminate|].
+    exfalso. eapply first_free_total; eauto.
+  - destruct (pget (pings s) p) as [pg|]; [|discriminate]. destruct (p_phase pg); try discriminate.
+    destruct ok; discriminate.
+  - destruct (fx && (nb <=? 65536)); discriminate.
+  - destruct (tget (tbl s) i) as [q|]; [|discriminate].
+    destruct (pget (pings s) q) as [pg|]; [|discriminate]. destruct (p_closed pg); discriminate.
+  - destruct (pget (pings s) p) as [pg|]; [|discriminate]. destruct (p_phase pg); discriminate.
+  - destruct (pget (pings s) p) as [pg|]; [|discriminate]. destruct (p_phase pg); try discriminate.
+    destruct (p_closed pg || p_fired pg); discriminate.
+Qed.
+
+Lemma run_no_fuel fx n tr : n < 65536 -> run fx (init n) tr <> Fuel.
+Proof.
+  intros Hn. assert (G : forall s, Inv s -> run fx s tr <> Fuel).
+  { induction tr as [|e r IH]; intros s Hs; cbn [run]; [discriminate|].
+    destruct (step fx s e) eqn:E; try discriminate.
+    - apply IH. eapply Inv_step; eauto.
+    - exfalso. eapply step_no_fuel; eauto. }
   apply G. apply Inv_init. exact Hn.
 Qed.
 
@@ -317,16 +407,19 @@ Proof.
   assert (Hfresh : forall p, pget (pings s) p = None -> forall i q, tget (tbl s) i = Some q -> q <> p).
   { intros p0 Ep0 i q Hq E. subst q. destruct (He _ _ Hq) as (pg & Hp & _). congruence. }
   step_cases H; cbn [tbl pings set_pings]; intros ii qq Hq; rewrite ?pget_pset.
-  - rewrite tget_tset in Hq. destruct (N.eqb_spec ii (next s)).
+  - destruct (Nat.eqb_spec qq p); [exfalso; eapply Hfresh; eauto|]. eapply Ho; eauto.
+  - rewrite tget_tset in Hq. destruct (N.eqb_spec ii ia).
     + inversion Hq; subst qq. rewrite Nat.eqb_refl. reflexivity.
     + destruct (Nat.eqb_spec qq p); [exfalso; eapply Hfresh; eauto|]. eapply Ho; eauto.
   - destruct (Nat.eqb_spec qq p); [reflexivity|]. eapply Ho; eauto.
   - destruct Hfx as [->|Hfb]; [|discriminate].
-    rewrite tget_tdel in Hq. destruct (N.eqb_spec ii (p_id pgp)); [discriminate|].
+    rewrite tget_tdel_own in Hq.
+    assert (Hq' : tget (tbl s) ii = Some qq) by (destruct (_ && _); [discriminate|exact Hq]).
     destruct (Nat.eqb_spec qq p).
-    + subst qq. destruct (He _ _ Hq) as (pg' & Hp' & Hid' & _). congruence.
+    + subst qq. destruct (He _ _ Hq') as (pg' & Hp' & Hid' & _). rewrite Ep in Hp'. inversion Hp'; subst pg'.
+      rewrite Hid' in Hq. rewrite N.eqb_refl, Hq', Nat.eqb_refl in Hq. discriminate.
     + eapply Ho; eauto.
-  - rewrite tget_tdel_range in Hq. destruct (in_range ii (next s) nb); [discriminate|]. eapply Ho; eauto.
+  - eapply Ho; eauto.
   - rewrite tget_tdel in Hq. destruct (N.eqb_spec ii j); [discriminate|].
     destruct (Nat.eqb_spec qq q).
     + subst qq. destruct (He _ _ Hq) as (pg' & Hp' & Hid' & _).
@@ -335,9 +428,11 @@ Proof.
   - eapply Ho; eauto.
   - eapply Ho; eauto.
   - destruct (Nat.eqb_spec qq p); [reflexivity|]. eapply Ho; eauto.
-  - rewrite tget_tdel in Hq. destruct (N.eqb_spec ii (p_id pgp)); [discriminate|].
+  - rewrite tget_tdel_own in Hq.
+    assert (Hq' : tget (tbl s) ii = Some qq) by (destruct (_ && _); [discriminate|exact Hq]).
     destruct (Nat.eqb_spec qq p).
-    + subst qq. destruct (He _ _ Hq) as (pg' & Hp' & Hid' & _). congruence.
+    + subst qq. destruct (He _ _ Hq') as (pg' & Hp' & Hid' & _). rewrite Ep in Hp'. inversion Hp'; subst pg'.
+      rewrite Hid' in Hq. rewrite N.eqb_refl, Hq', Nat.eqb_refl in Hq. discriminate.
     + eapply Ho; eauto.
 Qed.
 
